@@ -417,6 +417,22 @@ Theorem C17_scan_rejects_bad_destination : forall st,
 Proof. exact scan_rejects_bad_destination. Qed.
 Print Assumptions C17_scan_each_once.
 
+(* ---- Head(n) directly over a decoded stream (headReader passes the window out.Slice(0, h.n) on) ---- *)
+Theorem C17_head_decoding_delivers : forall s n ds,
+  demands_ok ds ->
+  let r := run (head_over dec_read) (mkDec s [] SOk, n) ds in
+  calls_bounded r ds /\
+  prefix (outs_of r) (sem_head n (batches_of s)) /\
+  (final_of r = SEof -> outs_of r = sem_head n (batches_of s)) /\
+  (false = true -> final_of r <> SEof) /\
+  (dec_fails s = false -> forall e, final_of r <> SErr e) /\
+  no_fuel r.
+Proof. exact head_decoding_delivers. Qed.
+Theorem C17_head_decoding_progress : forall s n ds,
+  demands_ok ds -> dmeas s < length ds ->
+  final_of (run (head_over dec_read) (mkDec s [] SOk, n) ds) <> SOk.
+Proof. exact head_decoding_progress. Qed.
+
 (* every theorem of this file at once: one traversal of the whole dependency cone *)
 Definition C17_all :=
   (C17_gen_chunk,
@@ -478,5 +494,7 @@ Definition C17_all :=
    C17_scanner_progress,
    C17_scan_each_once,
    C17_scanreader_all,
-   C17_scan_rejects_bad_destination).
+   C17_scan_rejects_bad_destination,
+   C17_head_decoding_delivers,
+   C17_head_decoding_progress).
 Print Assumptions C17_all.
